@@ -54,7 +54,7 @@ def free_scenarios(run):
 def check(run):
     q = run.quick()
     # design level
-    kl = dict(Threads=tla_set([1, 2]), Keys=tla_set([1, 2]), Kinds='{"lock","try","rlock","tryr"}', Racy="FALSE", MaxObj=3, ClearMode='"quiet"')
+    kl = dict(Threads=tla_set([1, 2]), Keys=tla_set([1, 2]), Kinds='{"lock","try","rlock","tryr"}', Racy="FALSE", MaxObj=3, ClearMode='"quiet"', WriterPref="TRUE", Nest="TRUE")
     model_check(run, "keyed", "KeyedLock", kl, invariants=KL_INV, label="2 goroutines, 2 keys")
     bad = model_check(run, "keyed", "KeyedLock", dict(kl, Racy="TRUE"), invariants=["Exclusion"], expect_violation=True, label="racy lookup")
     if not bad.get("violated"):
@@ -63,6 +63,15 @@ def check(run):
     # spec growth beyond the property: ClearKey while the key is held is a hazard of the API (two holders after LockKey; ClearKey; LockKey)
     haz = model_check(run, "keyed", "KeyedLock", dict(kl, ClearMode='"any"'), invariants=["Exclusion"], expect_violation=True, label="ClearKey while held (hazard)")
     run.notes.append("spec note (not a property): ClearKey while a key is held breaks per-key exclusion in the model: %s" % (haz.get("violated") or "NOT REPRODUCED"))
+    # liveness under fairness (holders release, mutex objects starvation-free): every acquisition returns; needs writer preference
+    lv = dict(kl, Threads=tla_set([1, 2, 3]), Keys=tla_set([1] if q else [1, 2]), Nest="FALSE", ClearMode='"never"', MaxObj=2)
+    model_check(run, "keyed", "KeyedLock", lv, properties=["EveryAcquisitionReturns"], spec="LiveSpec", label="liveness, 3 goroutines")
+    starve = model_check(run, "keyed", "KeyedLock", dict(lv, Keys=tla_set([1]), WriterPref="FALSE"), properties=["EveryAcquisitionReturns"], spec="LiveSpec",
+                         expect_violation=True, label="liveness without writer preference")
+    run.notes.append("KeyedLock.tla without writer preference: readers starve a writer, EveryAcquisitionReturns %s"
+                     % ("violated as expected" if starve.get("violated") else "NOT violated (model too weak?)"))
+    if not starve.get("violated"):
+        raise Inconclusive("KeyedLock.tla: without writer preference two alternating readers should starve a writer")
     if not q:
         model_check(run, "keyed", "KeyedLock", dict(kl, Threads=tla_set([1, 2, 3]), MaxObj=4), invariants=KL_INV, label="3 goroutines, 2 keys")
     # the lookup the keyed mutexes rely on: LoadOrStore racing LoadOrStore/Delete on sync2.Map (C04's model, restricted call kinds)
